@@ -143,6 +143,9 @@ def run_case(case):
                 klass = "built-" + f["built"]
             else:
                 x0, f = go.make(fmt, rng, klass)
+            if case["i"] % 4 == 3:
+                go.relayout(x0, gb.rng_for(15, 77, case["seed"], case["i"]))
+                klass += "+layout"
             if x0.atcoords is not None and x0.mo is None and case["i"] % 3 == 1:
                 # numerical noise around zero and signed zeros (planar / symmetric geometries out of an optimiser)
                 xyz = x0.atcoords.copy()
